@@ -204,6 +204,7 @@ const FAULT_MENU: [FaultKind; 6] = [
 fn sweep_scripts(id: &str) -> Vec<(&'static str, u64, u64, ScriptFn)> {
     match id {
         "C02" => vec![("wrap", 1000, 100_000, wrap_script)],
+        "C05" | "C18" => vec![("many-fresh-sessions", 24, 600, crate::scripts::fresh_sessions_script)],
         "C03" => vec![("window-saturation", 500, 50_000, crate::scripts::saturation_script), ("wrap", 400, 40_000, wrap_script)],
         "C16" => vec![("wrap", 300, 30_000, wrap_script), ("window-saturation", 200, 20_000, crate::scripts::saturation_script)],
         _ => vec![],
@@ -1070,7 +1071,7 @@ pub fn all() -> Vec<Box<dyn Check>> {
         level: "exploration",
         rule: concat!("status of every operation handle is queried after every step and compared with a reference model (pending until the final ack was consumed in the issuing session, invalidated once a fresh-session CONNACK was consumed); failure codes must surface as Rejected from the consuming call. Non-trivial iff a status transition was observed.", " Workload `wrap`: the identifier counter wraps with older operations outstanding (C07's script), so that handles are queried while the in-flight lists are not in identifier order."),
         assumptions: COMMON_ASSUME.to_vec(),
-        workloads: vec![("acks-heavy", 4000, 2_000_000, Source::Gen(acks_heavy)), ("general", 2000, 1_000_000, Source::Gen(general)), ("wrap", 600, 300_000, Source::Script(wrap_script))],
+        workloads: vec![("acks-heavy", 4000, 2_000_000, Source::Gen(acks_heavy)), ("general", 2000, 1_000_000, Source::Gen(general)), ("wrap", 600, 300_000, Source::Script(wrap_script)), ("window-saturation", 400, 40_000, Source::Script(crate::scripts::saturation_script))],
         monitor: m::c18::check,
         max_steps: 70,
         epilogue_polls: 0,
